@@ -267,6 +267,15 @@ def main(argv):
             var = "t9fresh = " + sub + "\n" + (hole % (("t9fresh",) * nh))
             twice = "[%s, %s]\n[%s]" % (orig, orig, orig)
             pairs.append((orig, var, twice, sub))
+    # closures WITH captured values: two evaluations give two cells with equal contents; equality, unique, includes
+    # and the unchecked orderings must not see the cell (Coq: C02_equals_blind_to_cells)
+    for sub in ("(x => x + k9)", "[1, y => [y, k9]]", "{f: () => k9}"):
+        for hole in OHOLES:
+            nh = hole.count("%s")
+            orig = "k9 = 3\n" + (hole % ((sub,) * nh))
+            var = "k9 = 3\nt9fresh = " + sub + "\n" + (hole % (("t9fresh",) * nh))
+            e9 = hole % ((sub,) * nh)
+            pairs.append((orig, var, "k9 = 3\n[%s, %s]\n[%s]" % (e9, e9, e9), sub))
     for sub, pre in (("do {\n  return n9 = n9 + 1\n}", "n9 = 0\n"), ("do {\n  return k9 = 5\n}", ""),
                      ("(() => m9 = 1)()", ""), ("do {\n  t9 = 2\n  return t9 * 2\n}", "")):
         orig = pre + sub
@@ -324,6 +333,11 @@ def main(argv):
                     e_ = shape % {"use": "%s(1)" % acc, "namer": namer % (name, acc)}
                     nb_progs.append("%s\nt1 = %s\nt2 = %s" % (pre, e_, e_))
                     nb_meta.append((unnamed and name == "y9", pre.count("\n") + 3))
+    for e9 in ("[(x => x + k9) == (x => x + k9)]", "(x => x + k9) .== (x => x + k9)",
+               "len(unique([(x => x + k9), (x => x + k9)]))", "includes([(x => x + k9)], (x => x + k9))",
+               "[ugte((x => x + k9), (x => x + k9)), [y => k9] == [y => k9]]"):
+        nb_progs.append("k9 = 3\nt1 = %s\nt2 = %s" % (e9, e9))
+        nb_meta.append((False, 3))
     nb_out = es.rust_eval(h, nb_progs)
     f52_open = any(e_["id"] == "F52" for e_ in open_known_c02())
     nb_known = nb_viol = nb_checked = 0
@@ -349,8 +363,9 @@ def main(argv):
     # shapes are counted but not diffed, so that a repair of F52 does not raise an alarm here)
     nb_agree = nb_mism = 0
     try:
-        sel = [p_ for p_, k_ in zip(nb_progs, nb_meta) if not k_[0]][:: (2 if tier == "quick" else 1)]
-        selo = [o_ for o_, k_ in zip(nb_out, nb_meta) if not k_[0]][:: (2 if tier == "quick" else 1)]
+        stride = 2 if tier == "quick" else 1
+        sel = [p_ for p_, k_ in zip(nb_progs[:-5], nb_meta[:-5]) if not k_[0]][::stride] + nb_progs[-5:]
+        selo = [o_ for o_, k_ in zip(nb_out[:-5], nb_meta[:-5]) if not k_[0]][::stride] + nb_out[-5:]
         coq2, _ = es.parse_to_coq(h, sel)
         model2 = es.model_eval(coq2, tag="c02nb")
         nb_agree, mism2, _, _ = es.compare(sel, selo, model2)
